@@ -555,7 +555,9 @@ package jrpc2
 //@   ensures[C01:nothing-to-report] len(rsps) == 0 ==> chSends(ch) == old(chSends(ch))
 //@   ensures[C01:at-most-one-message] chSends(ch) == old(chSends(ch)) || chSends(ch) == old(chSends(ch)) + 1
 //@   ensures[C08:unlocked] !held(s.mu)
+//@   ensures[C07:answered-ids-released] len(rsps) > 0 ==> forall(i int, 0 <= i && i < len(rsps) && rsps[i].err == nil ==> !in(s.used, str(rsps[i].ID)))
 //@   loop 1 invariant held(s.mu) && Server_mu_inv(s)
+//@   loop 1 invariant forall(j int, 0 <= j && j <= rangeindex && rsps[j].err == nil ==> !in(s.used, str(rsps[j].ID)))
 
 // CancelRequest: fires at most the cancel function filed under id and changes
 // no reservation (the call is in flight until its reply is delivered).
